@@ -115,7 +115,12 @@ def _status(st: VerificationStatus):
             [int(x) for x in st.step_list]]
 
 
-def _snapshot(v: PusVerificator):
+def _snapshot(v: PusVerificator, n_calls: int):
+    for s in v.verif_dict.values():
+        # fail fast (a list that grows beyond the number of calls made on this instance would
+        # otherwise be copied into every later snapshot of the run)
+        if len(s.step_list) > n_calls:
+            raise SelfCheckFailure(f"a step list holds {len(s.step_list)} values after {n_calls} calls on a new tracker")
     items = [(int(k.as_u32()), _status(s)) for k, s in v.verif_dict.items()]
     ks = [k for k, _ in items]
     if len(set(ks)) != len(ks):
@@ -166,7 +171,7 @@ def op_verif_run(a):
         else:
             raise AssertionError(st)
         outs.append(out)
-        dicts.append(_snapshot(v))
+        dicts.append(_snapshot(v, len(outs)))
     return {"outs": outs, "dicts": dicts}
 
 
@@ -288,7 +293,7 @@ class C16(Prop):
                        "registering one telecommand; every history of length 3 over 2 telecommands x {register, 6 reports, 2 step "
                        "reports x 2 step values, remove} + remove-completed (25^3 = 15625) from the empty tracker and after both "
                        "are registered; every history of length 2 (625) after each of 12 random prefixes. thorough: 8^6 report "
-                       "sequences, every history of length 4 over the 25-call alphabet (390625), length 3 after 24 random prefixes. "
+                       "sequences, every history of length 4 over the 25-call alphabet (390625), length 3 after 12 random prefixes. "
                        "After every call the return value and the whole dictionary are compared.")
     trusted_base = [
         "CPython dict semantics (insertion order, in-place update, del, comprehension) and dataclass field mutation: modelled as an "
@@ -370,7 +375,7 @@ class C16(Prop):
                 yield run_case([TC_A, TC_B], [[ADD_TC, 0], [ADD_TC, 1]] + list(hist), "all-histories-3-after-registration")
         # after random prefixes (deeper states: partially verified, finished, removed and re-registered)
         depth3 = 3 if thorough else 2
-        for _ in range(24 if thorough else 12):
+        for _ in range(12):
             ids, prefix = random_history(rng, 2, rng.randint(3, 9), 0.0, 0.0, 0.3)
             ids = ids[:2]
             prefix = [s for s in prefix if len(s) < 2 or s[1] < 2]
@@ -378,7 +383,7 @@ class C16(Prop):
                 yield run_case(ids, prefix + list(hist), f"all-histories-{depth3}-after-random-prefix")
 
         # --- long random histories ------------------------------------------------------------
-        for _ in range(12000 if thorough else 1500):
+        for _ in range(8000 if thorough else 1500):
             n_tc = rng.choice([1, 2, 3, 3, 4])
             length = rng.choice([30, 30, 60, 200]) if thorough else rng.choice([10, 30, 30, 45])
             ids, steps = random_history(rng, n_tc, length, rng.choice([0.0, 0.3, 1.0]), 0.03, 0.15)
